@@ -7,7 +7,8 @@ import AbraModel.Drv.Util
      line         `L:<label>` | `I:<file>:<lineno>:<func>:<instr>`
      instr        Rust `Debug` of assembly::Instr without blanks, string payloads as `$<hex>` tokens
    answer: the resulting lines in the same format, or `need-fold`.
-   `opt expand <NI:int>* <NF:lit>* <line>*`: `expand_immediates` with the listed constants NOT fitting a 16-bit index;
+   `opt expand <CI:int:index>* <CF:lit:index>* <line>*`: `expand_immediates`; the entries give the constant-pool index of
+     every constant used by an immediate-operand instruction (an unlisted constant has no index and does not fit);
      answer: one word per instruction, `Name` or `Name:<constant>` (labels dropped)
    `opt run …` is not offered: execution is compared implementation-vs-implementation by the harness. -/
 namespace Abra.Drv.OptD
@@ -190,8 +191,8 @@ def floatOpShort : List (String × FloatOp) :=
 structure OptReq where
   folds : List (FloatOp × String × String × String)
   zeros : List String
-  nofitInt : List Int := []
-  nofitFloat : List String := []
+  idxInt : List (Int × Nat) := []
+  idxFloat : List (String × Nat) := []
   lines : List Line
 
 def parseOptReq : List String → OptReq → Option OptReq
@@ -205,11 +206,20 @@ def parseOptReq : List String → OptReq → Option OptReq
         | none => none
       | _ => none
     else if w.startsWith "Z:" then parseOptReq ws { acc with zeros := (w.drop 2).toString :: acc.zeros }
-    else if w.startsWith "NI:" then
-      match (w.drop 3).toString.toInt? with
-      | some n => parseOptReq ws { acc with nofitInt := n :: acc.nofitInt }
-      | none => none
-    else if w.startsWith "NF:" then parseOptReq ws { acc with nofitFloat := (w.drop 3).toString :: acc.nofitFloat }
+    else if w.startsWith "CI:" then
+      match (w.drop 3).toString.splitOn ":" with
+      | [v, i] =>
+        match v.toInt?, i.toNat? with
+        | some v, some i => parseOptReq ws { acc with idxInt := (v, i) :: acc.idxInt }
+        | _, _ => none
+      | _ => none
+    else if w.startsWith "CF:" then
+      match (w.drop 3).toString.splitOn ":" with
+      | [v, i] =>
+        match i.toNat? with
+        | some i => parseOptReq ws { acc with idxFloat := (v, i) :: acc.idxFloat }
+        | none => none
+      | _ => none
     else match parseLine w with
       | some l => parseOptReq ws { acc with lines := l :: acc.lines }
       | none => none
@@ -250,7 +260,9 @@ def handle : List String → String
       | "full" => renderPassRes (optimize (envOf r) r.lines)
       | "echo" => renderPassRes (.ok r.lines)
       | "expand" =>
-        let pool : Pool := { fitsInt := fun n => !r.nofitInt.contains n, fitsFloat := fun f => !r.nofitFloat.contains f }
+        let pool : Pool := poolOfIndex
+          (fun n => (r.idxInt.find? (·.1 == n)).map (·.2))
+          (fun f => (r.idxFloat.find? (·.1 == f)).map (·.2))
         let out := (expandImmediates pool r.lines).filterMap fun l =>
           match l with
           | .instr i _ => some (renderVm i)
